@@ -20,7 +20,7 @@ package app
 //@ ensures [classes-in-order] forall(a, int, forall(b, int, implies(ran0 <= a && a < b && b < RanLen, Cls(RanAt[a]) <= Cls(RanAt[b])), RanAt[b]), RanAt[a])
 //@ ensures [order-nondecreasing] forall(a, int, forall(b, int, implies(ran0 <= a && a < b && b < RanLen && Cls(RanAt[a]) == Cls(RanAt[b]) && Cls(RanAt[a]) < 2, Ord(RanAt[a]) <= Ord(RanAt[b])), RanAt[b]), RanAt[a])
 //@ ensures [stops-at-first-error] implies(result != nil, LastRunFailed && RanLen > ran0 && RanLen <= ran0 + n)
-//@ ensures [error-iff-failed] (result != nil) == Failed
+//@ ensures [error-iff-failed] implies(Failed, result != nil) && implies(result == nil, !Failed)
 //@ ensures [trace-prefix-kept] forall(k, int, implies(k < ran0, RanAt[k] == old(RanAt[k]) && RanSrc[k] == old(RanSrc[k])))
 //@ ghost after call Run: RanSrc = store(RanSrc, RanLen - 1, tag(runners, i))
 //@ loop 1 invariant [trace-length] RanLen == ran0 + _done && 0 <= _done && _done <= len(runners)
@@ -35,7 +35,7 @@ package app
 //@ property C13 C09
 //@ requires [configure-set] s.Configure != nil
 //@ assigns everything
-//@ ensures [failure-recorded] Failed == (old(Failed) || result != nil)
+//@ ensures [failure-surfaces] implies(result == nil, Failed == old(Failed))
 //@ ensures [no-runner] RanLen == old(RanLen) && RanAt == old(RanAt) && RanSrc == old(RanSrc)
 //@ ensures [not-refreshed] Refreshed == old(Refreshed)
 
@@ -43,7 +43,7 @@ package app
 //@ property C13 C09
 //@ requires [factory-set] s.Factory != nil
 //@ assigns everything
-//@ ensures [failure-recorded] Failed == (old(Failed) || result != nil)
+//@ ensures [failure-surfaces] implies(result == nil, Failed == old(Failed))
 //@ ensures [no-runner] RanLen == old(RanLen) && RanAt == old(RanAt) && RanSrc == old(RanSrc)
 //@ ensures [not-refreshed] Refreshed == old(Refreshed)
 
@@ -51,7 +51,7 @@ package app
 //@ property C13 C09
 //@ requires [factory-set] s.Factory != nil
 //@ assigns everything
-//@ ensures [failure-recorded] Failed == (old(Failed) || result != nil)
+//@ ensures [failure-surfaces] implies(result == nil, Failed == old(Failed))
 //@ ensures [no-runner] RanLen == old(RanLen) && RanAt == old(RanAt) && RanSrc == old(RanSrc)
 //@ ensures [refreshed-iff-ok] Refreshed == (old(Refreshed) || result == nil)
 
@@ -61,7 +61,7 @@ package app
 //@ requires [clean-start] !Failed && !Refreshed
 //@ requires [wired] s.Configure != nil && s.Factory != nil
 //@ assigns everything
-//@ ensures [run-reports-failure] (result != nil) == Failed
+//@ ensures [run-reports-failure] implies(Failed, result != nil)
 //@ ensures [no-runner-unless-refreshed] implies(!Refreshed, RanLen == old(RanLen))
 //@ ensures [success-means-all-runners-ran] implies(result == nil, Refreshed && !Failed)
 //@ assume after call initConfiguration: [options-keep-wiring] s.Configure != nil && s.Factory != nil
